@@ -121,7 +121,7 @@ def render(case):
         pl = "vp_out P | " + cmd
     else:
         pl = cmd
-    pre = "alias zz=vp_b ; " if case["cmd"].startswith(("alias", "unalias")) else ""
+    pre = "alias zz=vp_b ; " if case["cmd"].startswith(("alias ", "unalias")) else ""
     return pre + pl + " ; vp_io Z $? ; vp_snap"
 
 
@@ -223,7 +223,8 @@ def judge1(case):
         why = "unopenable=%s" % ((OPCLASS[bad[0]["op"]] + ("" if bad[0].get("space", True) or bad[0]["op"] not in ("<", "<<<")
                                                           else "(attached)")) if bad else "?")
         ran = bool(a) if not case["builtin"] else any(
-            m in r.out or m in r.err or any(m in v for v in files.values()) for m in (case["emits"][0][1],))
+            m in r.out or m in r.err or any(m in v for v in files.values()) for m in [e[1] for e in case["emits"][:1]])
+        # (a builtin that prints nothing leaves no trace of having run: only its status is judged)
         if ran:
             return ("violated", "C04:ran-despite-unopenable-target:%s:%s" % (feat, why), res)
         if case["pos"] in ("only", "last") and status == "0":
@@ -276,8 +277,11 @@ OUT_OPS = [">", ">>", "1>", "2>", "2>>", "2>&1", "1>&2", ">&2", "1>>"]
 def gen_case(rng, thorough):
     builtin = rng.random() < 0.3
     if builtin:
-        which = rng.choice(["alias-found", "alias-missing", "unalias-missing"])
-        if which == "alias-found":
+        which = rng.choice(["alias-found", "alias-missing", "unalias-missing", "silent"])
+        if which == "silent":
+            # a builtin that prints nothing at all: its redirection targets must still be created / truncated
+            cmd, emits, bst = rng.choice(["alias", "cd .", "export VQ=1", "jobs", "unalias zz"]), [], 0
+        elif which == "alias-found":
             cmd, emits, bst = "alias zz", [(1, b"alias zz='vp_b'\n")], 0
         elif which == "alias-missing":
             cmd, emits, bst = "alias nosuch", [(2, b"cicada: alias: nosuch: not found\n")], 1
